@@ -85,6 +85,12 @@ Definition init (luid lname lha p : Z) : stack :=
 Definition taken (f : field) (s : stack) (k : Z) : bool :=
   memZ k (keys (idx f s)) || Z.eqb k (getf f (local s)).
 
+(* Rejected: the operation raises the stack's rejection error, always ValueError
+   (removeRemote's "not identical" path as fixed by fixes/C37-removeremote-nameerror.patch;
+   the unfixed code raises NameError there - undefined `uid` - which rejects just the same).
+   KeyErr: `del index[key]` on a missing key (indexes out of step) / uid loop out of fuel. *)
+Inductive rejection := ValueError.
+Definition rejection_class : rejection := ValueError.
 Inductive outcome := Done | Rejected | KeyErr.
 
 (* RemoteDevice(stack, uid=None): uid = stack.nextUid() until free.  fuel bounds the loop *)
